@@ -111,10 +111,76 @@ fn check_case(case: &Case, st: &mut Stats) -> Result<(), String> {
             st.hit("related-list(sibling group in any order, duplicates, cousins)");
         }
     }
+    verify_list(&cells, t, st)
+}
+
+/// A long list (hundreds to thousands of cells; the generated lists above have at most 7): cells of the
+/// target resolution and up to two levels coarser, drawn by a splitmix stream from the case's seed, optionally
+/// sorted, with runs of consecutive curve positions. Total fan-out <= 16 per element.
+#[derive(Debug, Clone)]
+pub struct LongCase {
+    pub target: i32,
+    pub n: usize,
+    pub seed: u64,
+    pub mode: u8,
+}
+
+fn long_json(c: &LongCase) -> Value {
+    json!({"target": c.target, "n": c.n, "seed": c.seed.to_string(), "mode": c.mode})
+}
+fn long_from_json(v: &Value) -> Option<LongCase> {
+    Some(LongCase { target: v["target"].as_i64()? as i32, n: v["n"].as_u64()? as usize, seed: v["seed"].as_str()?.parse().ok()?, mode: v["mode"].as_u64()? as u8 })
+}
+
+fn check_long(case: &LongCase, st: &mut Stats) -> Result<(), String> {
+    let t = case.target;
+    let mut x = case.seed;
+    let mut next = || {
+        x = x.wrapping_add(0x9E3779B97F4A7C15);
+        let mut z = x;
+        z = (z ^ (z >> 30)).wrapping_mul(0xBF58476D1CE4E5B9);
+        z = (z ^ (z >> 27)).wrapping_mul(0x94D049BB133111EB);
+        z ^ (z >> 31)
+    };
+    let mut cells: Vec<Cell> = Vec::with_capacity(case.n);
+    while cells.len() < case.n {
+        let r = next();
+        let res = (t - (r % 3) as i32).max(if t >= 2 { 2 } else { t.max(-1) }).min(t);
+        let c = if res <= 1 {
+            if res == -1 { Cell::WORLD } else { Cell { res, face: ((r >> 8) % 12) as u8, quintant: if res == 1 { ((r >> 16) % 5) as u8 } else { 0 }, pos: 0 } }
+        } else {
+            Cell { res, face: ((r >> 8) % 12) as u8, quintant: ((r >> 16) % 5) as u8, pos: (r >> 24) % (1u64 << (2 * (res - 1))) }
+        };
+        // a run of consecutive curve positions now and then
+        let run = if case.mode & 1 == 1 && res >= 2 { 1 + (next() % 9) as u64 } else { 1 };
+        for k in 0..run {
+            let mut d = c;
+            if res >= 2 {
+                d.pos = (c.pos + k) % (1u64 << (2 * (res - 1)));
+            }
+            if cells.len() < case.n {
+                cells.push(d);
+            }
+        }
+    }
+    match (case.mode >> 1) % 3 {
+        1 => cells.sort_by_key(codec::encode),
+        2 => {
+            cells.sort_by_key(codec::encode);
+            cells.reverse();
+        }
+        _ => {}
+    }
+    st.hit(&format!("long-list:len-{}", if case.n >= 1024 { ">=1024" } else { "<1024" }));
+    st.hit(&format!("long-list:len-mod-4:{}", case.n % 4));
+    verify_list(&cells, t, st)
+}
+
+fn verify_list(cells: &[Cell], t: i32, st: &mut Stats) -> Result<(), String> {
     let ids: Vec<u64> = cells.iter().map(codec::encode).collect();
     let expect_err = cells.iter().any(|c| c.res > t);
     let got = a5::uncompact(&ids, t);
-    let desc = || format!("uncompact({:x?}, {})", ids, t);
+    let desc = || if ids.len() <= 12 { format!("uncompact({:x?}, {})", ids, t) } else { format!("uncompact([{} cells: {:x?} ...], {})", ids.len(), &ids[..4], t) };
     match (&got, expect_err) {
         (Ok(v), true) => return Err(format!("{} returned {} cells although an input is finer than the target", desc(), v.len())),
         (Err(e), false) => return Err(format!("{} failed: {}", desc(), e)),
@@ -159,9 +225,13 @@ fn check_case(case: &Case, st: &mut Stats) -> Result<(), String> {
     let res_set: BTreeSet<i32> = cells.iter().map(|c| c.res).collect();
     let nt = res_set.len() >= 2 || cells.iter().any(|c| c.res <= 0) || expect_err;
     if nt {
-        st.nontrivial(&(ids.clone(), t));
+        if ids.len() <= 16 {
+            st.nontrivial(&(ids.clone(), t));
+        } else {
+            st.nontrivial(&(ids.len(), ids[0], ids[ids.len() / 2], ids[ids.len() - 1], t));
+        }
     }
-    st.hit(&format!("inputs:{}", cells.len()));
+    st.hit(&format!("inputs:{}", if cells.len() > 8 { ">8".to_string() } else { cells.len().to_string() }));
     st.hit(&format!("target:{:02}", t));
     if cells.iter().any(|c| c.res == -1) {
         st.hit("has-world-cell");
@@ -169,7 +239,7 @@ fn check_case(case: &Case, st: &mut Stats) -> Result<(), String> {
     if cells.iter().any(|c| c.res == 0) {
         st.hit("has-base-cell");
     }
-    st.sample(nt, || json!({"inputs": ids.iter().map(|x| format!("{:x}", x)).collect::<Vec<_>>(), "input_res": cells.iter().map(|c| c.res).collect::<Vec<_>>(), "target": t, "result": match &got { Ok(v) => format!("Ok({} cells)", v.len()), Err(e) => format!("Err({})", e) }}));
+    st.sample(nt, || json!({"inputs": ids.iter().take(12).map(|x| format!("{:x}", x)).collect::<Vec<_>>(), "n_inputs": ids.len(), "input_res": cells.iter().take(12).map(|c| c.res).collect::<Vec<_>>(), "target": t, "result": match &got { Ok(v) => format!("Ok({} cells)", v.len()), Err(e) => format!("Err({})", e) }}));
     Ok(())
 }
 
@@ -192,7 +262,18 @@ pub fn run(tier: Tier, seed: u64) -> Report {
         check_case,
         case_json,
     );
-    rep.absorb("lists", r);
+    if !rep.absorb("lists", r) {
+        return rep;
+    }
+    let r = run_pbt(
+        "long-lists",
+        seed,
+        tier.pick(60, 1_500),
+        || (2i32..=29, prop_oneof![2 => 200usize..1024, 3 => 1024usize..3000], any::<u64>(), 0u8..6).prop_map(|(target, n, seed, mode)| LongCase { target, n, seed, mode }).boxed(),
+        check_long,
+        long_json,
+    );
+    rep.absorb("long-lists", r);
     rep
 }
 
@@ -200,6 +281,7 @@ pub fn replay(section: &str, case: &Value) -> Option<Result<(), String>> {
     let mut st = Stats::default();
     Some(guarded(|| match section {
         "lists" => check_case(&case_from_json(case).ok_or("bad case")?, &mut st),
+        "long-lists" => check_long(&long_from_json(case).ok_or("bad case")?, &mut st),
         _ => Err(format!("unknown section {}", section)),
     }))
 }
